@@ -278,6 +278,9 @@ func Describe(m *mail.Msg, s *MsgSpec, cached [3]string, rb []string) string {
 	}
 	parts := m.GetParts()
 	for i, p := range parts {
+		if strings.HasPrefix(string(p.GetContentType()), "application/pkcs7-signature") || i >= len(s.Parts) {
+			continue // the S/MIME signature part of an earlier render (signMessage drops it first)
+		}
 		ps := s.Parts[i]
 		it = append(it, fmt.Sprintf("P%s:%s:%s:%s:%s:%s", h(string(p.GetContentType())), string(p.GetEncoding()),
 			h(string(p.GetCharset())), h(p.GetDescription()), hx.HexList(ps.Prod.Chunks), b01(ps.Prod.Fail)))
